@@ -192,7 +192,13 @@ def _worker(args):
                 continue
             stats["evaluations"] += 1
             fin = getattr(lg, "fin", None) or {}
-            if fin.get("runaway"):
+            if lg.end == "spin":
+                # the case process used more than 20 s of CPU time (its own, not wall-clock) without finishing:
+                # the library spins - every wait of these engines is virtual, nothing legitimate takes that long
+                lastop = lg.ops[-1]["op"] if lg.ops else "start-of-case"
+                vs, obs, nontrivial = [Violation(prop, "%s/cpu-spin:after-%s" % (prop, lastop),
+                                                 "the case burnt more than 20 s of CPU time after its last completed call (%s) and never finished" % lastop)], {}, True
+            elif fin.get("runaway"):
                 # step-count verdict of the interposer: a forked child exceeded its call budget
                 # (a loop over descriptors/signals that would not end); the trace is not meaningful
                 vs, obs, nontrivial = [Violation(prop, "%s/runaway-child-loop:%s" % (prop, fin["runaway"]),
